@@ -119,6 +119,35 @@ class ScriptedEngine(object):
         return torch.full((n,), 1.0 / n)
 
 
+def compress_waits(factor):
+    """Inside THIS (worker) process, every timed wait lasts `factor` times shorter than asked for:
+    `Queue.get(timeout=)`, `Event.wait(timeout)`, `Condition.wait(timeout)`, `time.sleep` - so that
+    a pause of a few seconds between two requests is, for the worker, minutes spent idle.
+    Untimed waits (the unchanged worker blocks in `cmd.get()` for ever) are not touched."""
+    import multiprocessing.queues
+    import multiprocessing.synchronize
+    import threading
+
+    f = float(factor)
+
+    def scaled(orig, pos):
+        def wrapper(self, *a, **k):
+            if "timeout" in k and k["timeout"] is not None:
+                k["timeout"] = k["timeout"] / f
+            elif len(a) > pos and a[pos] is not None:
+                a = a[:pos] + (a[pos] / f,) + a[pos + 1:]
+            return orig(self, *a, **k)
+
+        return wrapper
+
+    Q = multiprocessing.queues.Queue
+    Q.get = scaled(Q.get, 1)  # get(block=True, timeout=None)
+    for cls in (multiprocessing.synchronize.Event, threading.Event, multiprocessing.synchronize.Condition, threading.Condition):
+        cls.wait = scaled(cls.wait, 0)
+    orig_sleep = time.sleep
+    time.sleep = lambda s: orig_sleep(s / f)
+
+
 class ScriptedFactory(object):
     """`SelfPlayConfig.engine_factory`: called once in every worker process."""
 
@@ -128,6 +157,8 @@ class ScriptedFactory(object):
 
     def __call__(self):
         j = worker_index()
+        if self.spec.get("compress"):
+            compress_waits(self.spec["compress"])
         if j in self.spec.get("factory", []):
             _marker(self.dir, "fault-factory-%d" % j)
             raise ScriptedFaultError("scripted engine-factory failure in worker %d" % j)
